@@ -47,7 +47,24 @@ func RandomUniformBinaryTree(nbtips int, rooted bool) (*Tree, error) {
 			t.SetRoot(n2)
 		default:
 			// Where to insert the new tip
-			i_edge := rand.Intn(len(edges))
+			nbpos := len(edges)
+			if rooted {
+				// A rooted tree has one more possible position: above the current root
+				nbpos++
+			}
+			i_edge := rand.Intn(nbpos)
+			if i_edge == len(edges) {
+				// The new tip and the current root become the two children of a new root
+				newroot := t.NewNode()
+				eroot := t.ConnectNodes(newroot, t.Root())
+				etip := t.ConnectNodes(newroot, n)
+				eroot.SetLength(gostats.Exp(lambda))
+				etip.SetLength(gostats.Exp(lambda))
+				t.SetRoot(newroot)
+				edges = append(edges, eroot)
+				edges = append(edges, etip)
+				continue
+			}
 			e := edges[i_edge]
 			newedge, newedge2, _, err := t.GraftTipOnEdge(n, e)
 			e.SetLength(gostats.Exp(lambda))
